@@ -77,6 +77,12 @@ def gen(kind):
         if kind == "ED" and i in (1, 2):
             # parameter sets for which the downstream root finder used to fall onto the upstream state (fixed in the repository)
             kw = [dict(M0=1.2, gamma=1.2), dict(M0=2.0, gamma=1.4)][i - 1]
+        if kind == "ED" and i in (5, 6, 9, 10):
+            # strong radiating shocks: the compression exceeds the hydrodynamic limit (gamma+1)/(gamma-1)
+            kw = [dict(M0=6.0, Tref=300.0), dict(M0=5.0, Tref=1000.0), dict(M0=uni(rng, 4.0, 8.0), Tref=logu(rng, 200, 1000)),
+                  dict(M0=uni(rng, 4.0, 7.0), Tref=logu(rng, 300, 1000), gamma=uni(rng, 1.3, 5.0 / 3.0))][(5, 6, 9, 10).index(i)]
+        if kind == "nED" and i == 3:
+            kw = dict(M0=8.0)
         if kind == "nED":
             kw["problem"] = ["nED", "LM_nED", "FLD_LP", "FLD_1", "FLD_2"][i % 5]
         if kind == "Sn":
